@@ -43,6 +43,9 @@ def scenario(ctx, i):
         w = np.array(w, dtype=float)
         w[tiny] = 10.0 ** (-float(r.uniform(17, 300)))
         m = m + np.sqrt(v) * 60.0 * (np.arange(C)[:, None] - tiny)
+    int_means = bool(kind == "bulk" and r.random() < 0.3)
+    if int_means:  # means typed in by hand: integer-valued, in an integer-typed array (the samples stay real-valued)
+        m = np.rint(m)
     thr = None
     if kind == "floor":
         thr = float(np.exp(r.uniform(np.log(0.05), np.log(2)))) * (sc**2)
@@ -68,13 +71,15 @@ def scenario(ctx, i):
     if kind == "bulk":
         x = gen.maybe_int(r, x, p=0.25)  # other legal dtypes of the sample array (the model sees the same values)
     order = ["thr_first", "thr_last", "restage", "ubm_copy", "hdf5_ubm"][int(r.integers(0, 5))] if kind == "floor" else ["thr_first", "restage", "ubm_copy", "hdf5_ubm"][int(r.integers(0, 4))]
-    return dict(kind=kind, C=C, D=D, w=w, m=m, v=v, thr=thr, x=x, tail=tail, order=order)
+    return dict(kind=kind, C=C, D=D, w=w, m=m, v=v, thr=thr, x=x, tail=tail, order=order, int_means=int_means)
 
 
 def impl_all(sc):
     import dask.array as da
 
     g = gen.mk_gmm(sc["w"], sc["m"], sc["v"], thr=sc["thr"], order=sc.get("order", "thr_first"))
+    if sc.get("int_means"):
+        g.means = np.rint(np.asarray(sc["m"])).astype(np.int64)
     x = sc["x"]
     out = {"veff": np.array(g.variances)}
     if sc["thr"] is not None and not np.array_equal(out["veff"], np.maximum(sc["v"], sc["thr"])):
@@ -114,7 +119,7 @@ def correspondence(ctx):
                ("gmm_ll:dask", mll, im["dask"]), ("gmm_ll:acc_stats", float(np.sum(mll)), im["acc"])]
         for op, a, b in cmp:
             if isinstance(b, core.ImplError) or not core.close(a, b):
-                bad.append({"op": op, "input": {k: sc[k] for k in ("C", "D", "w", "m", "v", "thr", "x", "sizes", "order")},
+                bad.append({"op": op, "input": {k: sc[k] for k in ("C", "D", "w", "m", "v", "thr", "x", "sizes", "order", "int_means") if k in sc},
                             "model": a, "impl": repr(b) if isinstance(b, core.ImplError) else b,
                             "maxdiff": None if isinstance(b, core.ImplError) else core.maxdiff(a, b)})
     return bad
@@ -134,6 +139,8 @@ def oracle(sc):
     import dask.array as da
 
     g = gen.mk_gmm(sc["w"], sc["m"], sc["v"], thr=sc.get("thr"), order=sc.get("order", "thr_first"))
+    if sc.get("int_means"):
+        g.means = np.rint(np.asarray(sc["m"])).astype(np.int64)
     x = np.asarray(sc["x"], dtype=float)
     veff = np.maximum(np.asarray(sc["v"]), sc["thr"]) if sc.get("thr") is not None else np.asarray(sc["v"])
     ref, comp = reference_ll(np.asarray(sc["w"]), np.asarray(sc["m"]), veff, x)
@@ -221,7 +228,7 @@ def search(ctx):
                 f["oracle"] = "trained"
                 f["trained_seed"] = i
         if f:
-            f["input"] = {k: sc[k] for k in ("C", "w", "m", "v", "thr", "x", "sizes", "order")}
+            f["input"] = {k: sc[k] for k in ("C", "w", "m", "v", "thr", "x", "sizes", "order", "int_means") if k in sc}
             f.setdefault("oracle", "oracle")
             fails.append(f)
             if len(fails) >= 3:
